@@ -3,14 +3,18 @@
 EXTENDS FiltersMatch
 CONSTANT Rich         \* TRUE: thorough catalogue
 
-(* operation universe *)
-Op(m, p, tags, id) == [method |-> m, path |-> p, tags |-> tags, opid |-> id, depr |-> "absent"]
+(* operation universe: two API schemas loaded in the same process.  Schema B defines operations with the SAME labels        *)
+(* (METHOD /path) as schema A but with different tags / operationIds, so that a filter that looks at those attributes must     *)
+(* tell them apart.  Schema- and test-scope extensions belong to schema A; only global ones concern schema B.                  *)
+Op(s, m, p, tags, id) == [schema |-> s, method |-> m, path |-> p, tags |-> tags, opid |-> id, depr |-> "absent"]
 PA == <<"/", "a">>
 PB == <<"/", "b">>
-Ops == << Op(<<"g","e","t">>, PA, << <<"x">> >>, <<"g","a">>),
-          Op(<<"p","o","s","t">>, PA, << <<"x">>, <<"y">> >>, <<"p","a">>),
-          Op(<<"g","e","t">>, PB, << >>, <<"g","b">>),
-          Op(<<"d","e","l","e","t","e">>, PB, << <<"y">> >>, << >>) >>
+Ops == << Op("A", <<"g","e","t">>, PA, << <<"x">> >>, <<"g","a">>),
+          Op("A", <<"p","o","s","t">>, PA, << <<"x">>, <<"y">> >>, <<"p","a">>),
+          Op("A", <<"g","e","t">>, PB, << >>, <<"g","b">>),
+          Op("A", <<"d","e","l","e","t","e">>, PB, << <<"y">> >>, << >>),
+          Op("B", <<"g","e","t">>, PA, << <<"y">> >>, <<"g","b">>),
+          Op("B", <<"d","e","l","e","t","e">>, PB, << <<"x">> >>, <<"p","a">>) >>
 NOps == Len(Ops)
 
 (* filter terms; one apply_to / skip_for call = one filter = conjunction of its keyword conditions *)
@@ -21,7 +25,7 @@ Call(m, atoms) == [m |-> m, a |-> atoms]
 ChainDef ==
   [c \in {"C1", "C2", "C3", "C4"} |->
      CASE c = "C1" -> << Call("apply_to", {V("method", <<"G","E","T">>)}) >>
-       [] c = "C2" -> << Call("skip_for", {V("path", PB)}) >>
+       [] c = "C2" -> << Call("skip_for", {V("tag", <<"y">>)}) >>
        [] c = "C3" -> << Call("apply_to", {V("path", PB)}), Call("skip_for", {V("method", <<"g","e","t">>)}) >>
        [] OTHER    -> << Call("skip_for", {V("name", <<"P","O","S","T"," ","/","a">>)}),
                          Call("apply_to", {L("method", << <<"p","o","s","t">>, <<"D","E","L","E","T","E">> >>), R("path", "prefix", PA)}),
